@@ -1,0 +1,25 @@
+//go:build verif
+
+package storage
+
+// Test seam for the /verif machinery (property C02). It does not change the store.
+
+// VerifPendingChanges returns a copy of the changes a shared MemCachedStore
+// holds at this instant, i.e. exactly the two maps a Persist starting now
+// would hand to the underlying store's PutChangeSet (nil value = deletion).
+// The CALLER must hold the store's read lock (VerifRLock); no lock is taken
+// here, so that it can be used while a writer is queued for the write lock.
+func (s *MemCachedStore) VerifPendingChanges() (mem, stor map[string][]byte) {
+	cp := func(m map[string][]byte) map[string][]byte {
+		r := make(map[string][]byte, len(m))
+		for k, v := range m {
+			if v == nil {
+				r[k] = nil
+			} else {
+				r[k] = append([]byte{}, v...)
+			}
+		}
+		return r
+	}
+	return cp(s.mem), cp(s.stor)
+}
